@@ -236,7 +236,7 @@ impl Prop for C05 {
         vec!["the relative order of end-tag handlers belonging to different elements closed by the same end tag, and of several `end` handlers, is not fixed by the statement and is canonicalised".into()]
     }
     fn run_shard(&self, ctx: &mut Ctx<'_>) {
-        let n = ctx.budget(100_000, 2_500_000);
+        let n = ctx.budget(100_000, 25_000_000);
         for i in 0..n {
             if i % 32 == 0 && ctx.should_stop() {
                 break;
